@@ -71,7 +71,9 @@ impl DeferredRead {
                         self.vec.capacity(),
                         h.variation,
                         h.details.qualifier()
-                    )
+                    );
+                    // same indication as when the READ is processed immediately
+                    iin2 = Iin2::PARAMETER_ERROR;
                 }
             } else {
                 iin2 = Iin2::PARAMETER_ERROR;
